@@ -1,34 +1,52 @@
-//! C05 / C06: TransportManager correspondence. One model step per injected event; after each
-//! step the calls on the scripted transport, the protocol notifications, the manager's own
-//! events, the command result and a dump of the bookkeeping are printed. Format: coq/Mgr/Glue.v.
+//! C05 / C06: TransportManager correspondence with two scripted transports (TCP and WebSocket).
+//! One model step per injected event or API call; after each step the calls each scripted
+//! transport saw, the protocol notifications, the manager's own events, the command result and a
+//! dump of the bookkeeping are printed. Format: coq/Mgr/Glue.v.
+//!
+//! Real code exercised: `TransportManager::{dial, dial_address, next}` with all its
+//! `TransportEvent` arms, `PeerState`, `ConnectionLimits`, and the user-facing
+//! `TransportManagerHandle::{dial, dial_address, add_known_address}` (commands travel over the
+//! real command channel and are executed by `next()`).
 use crate::util::*;
 use futures::StreamExt;
 use litep2p::{
     codec::ProtocolCodec,
+    error::ImmediateDialError,
     protocol::{SubstreamKeepAlive, TransportEvent, TransportService},
     transport::{
-        verif::{TransportManager, TransportManagerBuilder, VerifCall, VerifManagerEvent, VerifScript},
+        verif::{
+            SupportedTransport, TransportManager, TransportManagerBuilder, TransportManagerHandle, VerifCall,
+            VerifManagerEvent, VerifScript,
+        },
         ConnectionLimitsConfig,
     },
     types::protocol::ProtocolName,
     Error, PeerId,
 };
 use multiaddr::{Multiaddr, Protocol};
-use tokio::runtime::Runtime;
 use std::{
     panic::{catch_unwind, AssertUnwindSafe},
     path::Path,
     task::{Context, Poll},
     time::Duration,
 };
+use tokio::runtime::Runtime;
 
 const NPEERS: usize = 5; // peer 0 is the local node
+const NTR: usize = 2; // transport 0 = TCP, 1 = WebSocket
+/// at most this many dial_address shapes per case: the per-peer address store (64 records) never
+/// fills up, so no eviction happens (evictions are C10's business)
+const MAX_SHAPES: usize = 40;
 
 struct World {
     manager: TransportManager,
-    script: VerifScript,
+    handle: TransportManagerHandle,
+    /// scripts[t]: the scripted transport installed as transport t, if any
+    scripts: [Option<VerifScript>; NTR],
     service: TransportService,
     peers: Vec<PeerId>,
+    /// accept futures in creation order: (connection id, transport whose accept() created it)
+    accept_order: Vec<(u64, usize)>,
 }
 
 fn dec_opt(x: u64) -> Option<usize> {
@@ -39,8 +57,18 @@ fn dec_opt(x: u64) -> Option<usize> {
     }
 }
 
+/// (tag, arg) components of the canonical address of peer p for transport t (coq/Mgr/Model.v `canon`)
+fn canon_comps(p: usize, t: usize) -> Vec<(u64, u64)> {
+    let mut v = vec![(0u64, 2 * 65536 + 100 + p as u64), (5u64, 1000 + p as u64)];
+    if t != 0 {
+        v.push((7, 0));
+    }
+    v.push((10, p as u64));
+    v
+}
+
 impl World {
-    fn new(rt: &Runtime, max_in: u64, max_out: u64) -> World {
+    fn new(rt: &Runtime, max_in: u64, max_out: u64, inst: u64) -> World {
         let _g = rt.enter();
         let mut manager = TransportManagerBuilder::new()
             .with_connection_limits_config(
@@ -49,7 +77,8 @@ impl World {
                     .max_outgoing_connections(dec_opt(max_out)),
             )
             .build();
-        let script = manager.verif_register_scripted();
+        let tcp = (inst & 1 != 0).then(|| manager.verif_register_scripted_as(SupportedTransport::Tcp));
+        let ws = (inst & 2 != 0).then(|| manager.verif_register_scripted_as(SupportedTransport::WebSocket));
         // LISTEN0 of coq/Mgr/Model.v: /ip4/<private 1>/tcp/7000
         {
             let mut l = Multiaddr::empty();
@@ -69,15 +98,19 @@ impl World {
         for _ in 1..NPEERS {
             peers.push(PeerId::random());
         }
+        // the user-facing handle, cloned after the transports were registered (it carries the set
+        // of supported transports)
+        let handle = manager.verif_handle();
         drop(_g);
-        World { manager, script, service, peers }
+        World { manager, handle, scripts: [tcp, ws], service, peers, accept_order: Vec::new() }
     }
 
-    fn addr(&self, p: usize) -> Multiaddr {
-        format!("/ip4/10.0.0.{}/tcp/{}", p + 1, 1000 + p)
-            .parse::<Multiaddr>()
-            .unwrap()
-            .with(Protocol::P2p(self.peers[p].into()))
+    fn addr(&self, p: usize, t: usize) -> Multiaddr {
+        let mut m = Multiaddr::empty();
+        for c in canon_comps(p, t) {
+            m = m.with(crate::c10::protocol_of_peers(&self.peers, c).unwrap());
+        }
+        m
     }
 
     fn peer_index(&self, p: &PeerId) -> u64 {
@@ -88,6 +121,18 @@ impl World {
         match a.iter().last() {
             Some(Protocol::P2p(h)) => PeerId::from_multihash(h).map(|p| self.peer_index(&p)).unwrap_or(98),
             _ => 97,
+        }
+    }
+
+    fn set_failures(&self, t: usize, open: bool, dial: bool, negotiate: bool, accept: bool) {
+        if let Some(s) = &self.scripts[t] {
+            s.set_failures(open, dial, negotiate, accept);
+        }
+    }
+
+    fn clear_failures(&self) {
+        for t in 0..NTR {
+            self.set_failures(t, false, false, false, false);
         }
     }
 }
@@ -105,114 +150,222 @@ fn ret_code(r: &Result<(), Error>) -> u64 {
     }
 }
 
+fn hret_code(r: &Result<(), ImmediateDialError>) -> u64 {
+    match r {
+        Ok(()) => 0,
+        Err(ImmediateDialError::TriedToDialSelf) => 2,
+        Err(ImmediateDialError::AlreadyConnected) => 3,
+        Err(ImmediateDialError::NoAddressAvailable) => 4,
+        Err(ImmediateDialError::PeerIdMissing) => 6,
+        Err(ImmediateDialError::ChannelClogged) => 8,
+        Err(_) => 9,
+    }
+}
+
 #[derive(Clone, Debug)]
 enum Ev {
-    DialPeer(usize, bool),
-    DialAddr(usize, bool),
-    AddAddr(usize),
-    TrDialFailure(u64, usize),
-    TrOpened(u64, bool),
-    TrOpenFailure(u64, usize),
-    TrEstablished(usize, u64, bool, bool),
-    TrPendingInbound(u64),
+    /// dial(peer): (peer, transports in `open` order — written after the run from what the
+    /// implementation did —, transports whose open() fails)
+    DialPeer(usize, Vec<usize>, Vec<usize>),
+    DialAddr(usize, usize, bool),
+    AddAddr(usize, usize),
+    TrDialFailure(u64, usize, usize),
+    TrOpened(u64, usize, bool),
+    TrOpenFailure(u64, usize, usize),
+    TrEstablished(usize, u64, usize, bool, bool),
+    TrPendingInbound(u64, usize),
     AcceptDone(u64, bool),
     Closed(usize, u64),
     AllocConn,
     /// dial_address with an arbitrary multiaddress in the abstract grammar of C10: (tag, arg) pairs
     DialShape(Vec<(u64, u64)>),
+    /// TransportManagerHandle::dial(peer), then the manager executes the queued command
+    HDialPeer(usize, Vec<usize>, Vec<usize>),
+    /// TransportManagerHandle::dial_address(address), likewise
+    HDialAddr(Vec<(u64, u64)>),
+}
+
+fn enc_trs(out: &mut Vec<u64>, ts: &[usize]) {
+    out.push(ts.len() as u64);
+    out.extend(ts.iter().map(|t| *t as u64));
+}
+
+fn enc_shape(out: &mut Vec<u64>, a: &[(u64, u64)]) {
+    out.push(a.len() as u64);
+    for (t, x) in a {
+        out.extend([*t, *x]);
+    }
 }
 
 impl Ev {
     fn encode(&self, out: &mut Vec<u64>) {
         match *self {
-            Ev::DialPeer(p, f) => out.extend([0, p as u64, f as u64]),
-            Ev::DialAddr(p, f) => out.extend([1, p as u64, f as u64]),
-            Ev::AddAddr(p) => out.extend([2, p as u64]),
-            Ev::TrDialFailure(c, p) => out.extend([3, c, p as u64]),
-            Ev::TrOpened(c, f) => out.extend([4, c, f as u64]),
-            Ev::TrOpenFailure(c, p) => out.extend([5, c, p as u64]),
-            Ev::TrEstablished(p, c, l, f) => out.extend([6, p as u64, c, l as u64, f as u64]),
-            Ev::TrPendingInbound(c) => out.extend([7, c]),
+            Ev::DialPeer(p, ref ts, ref fl) => {
+                out.extend([0, p as u64]);
+                enc_trs(out, ts);
+                enc_trs(out, fl);
+            }
+            Ev::DialAddr(p, t, f) => out.extend([1, p as u64, t as u64, f as u64]),
+            Ev::AddAddr(p, t) => out.extend([2, p as u64, t as u64]),
+            Ev::TrDialFailure(c, t, p) => out.extend([3, c, t as u64, p as u64]),
+            Ev::TrOpened(c, t, f) => out.extend([4, c, t as u64, f as u64]),
+            Ev::TrOpenFailure(c, t, p) => out.extend([5, c, t as u64, p as u64]),
+            Ev::TrEstablished(p, c, t, l, f) => out.extend([6, p as u64, c, t as u64, l as u64, f as u64]),
+            Ev::TrPendingInbound(c, t) => out.extend([7, c, t as u64]),
             Ev::AcceptDone(c, ok) => out.extend([8, c, ok as u64]),
             Ev::Closed(p, c) => out.extend([9, p as u64, c]),
             Ev::AllocConn => out.push(10),
             Ev::DialShape(ref a) => {
-                out.extend([11, a.len() as u64]);
-                for (t, x) in a {
-                    out.extend([*t, *x]);
-                }
+                out.push(11);
+                enc_shape(out, a);
+            }
+            Ev::HDialPeer(p, ref ts, ref fl) => {
+                out.extend([12, p as u64]);
+                enc_trs(out, ts);
+                enc_trs(out, fl);
+            }
+            Ev::HDialAddr(ref a) => {
+                out.push(13);
+                enc_shape(out, a);
             }
         }
     }
 
     fn decode(c: &[u64], i: &mut usize) -> Option<Ev> {
-        let g = |k: usize| c.get(*i + k).copied();
+        let mut k = *i;
+        let mut g = || -> Option<u64> {
+            let v = c.get(k).copied();
+            k += 1;
+            v
+        };
         let pe = |x: u64| (x as usize) % NPEERS;
-        let (ev, n) = match g(0)? {
-            0 => (Ev::DialPeer(pe(g(1)?), g(2)? != 0), 3),
-            1 => (Ev::DialAddr(pe(g(1)?), g(2)? != 0), 3),
-            2 => (Ev::AddAddr(pe(g(1)?)), 2),
-            3 => (Ev::TrDialFailure(g(1)?, pe(g(2)?)), 3),
-            4 => (Ev::TrOpened(g(1)?, g(2)? != 0), 3),
-            5 => (Ev::TrOpenFailure(g(1)?, pe(g(2)?)), 3),
-            6 => (Ev::TrEstablished(pe(g(1)?), g(2)?, g(3)? != 0, g(4)? != 0), 5),
-            7 => (Ev::TrPendingInbound(g(1)?), 2),
-            8 => (Ev::AcceptDone(g(1)?, g(2)? != 0), 3),
-            9 => (Ev::Closed(pe(g(1)?), g(2)?), 3),
-            10 => (Ev::AllocConn, 1),
-            11 => {
-                let n = g(1)? as usize;
-                if n > 8 {
+        let tr = |x: u64| -> Option<usize> { (x < NTR as u64).then_some(x as usize) };
+        fn trs(g: &mut dyn FnMut() -> Option<u64>) -> Option<Vec<usize>> {
+            let n = g()?;
+            if n >= 3 {
+                return None;
+            }
+            let mut v = Vec::new();
+            for _ in 0..n {
+                let t = g()?;
+                if t >= NTR as u64 {
                     return None;
                 }
-                let mut a = Vec::new();
-                for k in 0..n {
-                    a.push((g(2 + 2 * k)?, g(3 + 2 * k)?));
-                }
-                (Ev::DialShape(a), 2 + 2 * n)
+                v.push(t as usize);
             }
+            Some(v)
+        }
+        fn shape(g: &mut dyn FnMut() -> Option<u64>) -> Option<Vec<(u64, u64)>> {
+            let n = g()? as usize;
+            if n > 8 {
+                return None;
+            }
+            let mut a = Vec::new();
+            for _ in 0..n {
+                let t = g()?;
+                let x = g()?;
+                a.push((t, x));
+            }
+            Some(a)
+        }
+        let ev = match g()? {
+            0 => {
+                let p = pe(g()?);
+                let ts = trs(&mut g)?;
+                let fl = trs(&mut g)?;
+                Ev::DialPeer(p, ts, fl)
+            }
+            1 => Ev::DialAddr(pe(g()?), tr(g()?)?, g()? != 0),
+            2 => Ev::AddAddr(pe(g()?), tr(g()?)?),
+            3 => Ev::TrDialFailure(g()?, tr(g()?)?, pe(g()?)),
+            4 => Ev::TrOpened(g()?, tr(g()?)?, g()? != 0),
+            5 => Ev::TrOpenFailure(g()?, tr(g()?)?, pe(g()?)),
+            6 => Ev::TrEstablished(pe(g()?), g()?, tr(g()?)?, g()? != 0, g()? != 0),
+            7 => Ev::TrPendingInbound(g()?, tr(g()?)?),
+            8 => Ev::AcceptDone(g()?, g()? != 0),
+            9 => Ev::Closed(pe(g()?), g()?),
+            10 => Ev::AllocConn,
+            11 => Ev::DialShape(shape(&mut g)?),
+            12 => {
+                let p = pe(g()?);
+                let ts = trs(&mut g)?;
+                let fl = trs(&mut g)?;
+                Ev::HDialPeer(p, ts, fl)
+            }
+            13 => Ev::HDialAddr(shape(&mut g)?),
             _ => return None,
         };
-        *i += n;
+        *i = k;
         Some(ev)
     }
 }
 
-/// What one step showed (used by the adaptive generator) and its encoding.
+/// What one step showed (used by the adaptive generator).
 struct StepObs {
-    calls: Vec<VerifCall>,
+    /// (call, transport it went to)
+    calls: Vec<(VerifCall, usize)>,
     stuck: bool,
     ret: u64,
 }
 
-fn apply(rt: &Runtime, w: &mut World, ev: &Ev, out: &mut Vec<u64>) -> StepObs {
+fn multiaddr_of(w: &World, a: &[(u64, u64)]) -> Option<Multiaddr> {
+    let mut m = Multiaddr::empty();
+    for c in a {
+        m = m.with(crate::c10::protocol_of_peers(&w.peers, *c)?);
+    }
+    Some(m)
+}
+
+/// Runs one event on the real code. For dial(peer) events the transports the implementation chose
+/// (the set of the `Opening` state it created, in the order `open` was called) are written back
+/// into the event.
+fn apply(rt: &Runtime, w: &mut World, ev: &mut Ev, out: &mut Vec<u64>) -> StepObs {
     let mut ret: u64 = 0; // 0 = no return value, else code + 1
     let mut stuck = 0u64;
     let mut mevs: Vec<VerifManagerEvent> = Vec::new();
     let guard = rt.enter();
+    let dial_peer = match ev {
+        Ev::DialPeer(p, _, _) | Ev::HDialPeer(p, _, _) => Some(*p),
+        _ => None,
+    };
+    let before = dial_peer.map(|p| w.manager.verif_peer_state(&w.peers[p]));
     let res = catch_unwind(AssertUnwindSafe(|| {
-        match ev {
-            Ev::DialPeer(p, f) => {
-                w.script.set_failures(*f, false, false, false);
+        match &*ev {
+            Ev::DialPeer(p, _, fl) => {
+                for t in 0..NTR {
+                    w.set_failures(t, fl.contains(&t), false, false, false);
+                }
                 let peer = w.peers[*p];
                 let r = rt.block_on(w.manager.dial(peer));
                 ret = ret_code(&r) + 1;
             }
-            Ev::DialAddr(p, f) => {
-                w.script.set_failures(false, *f, false, false);
-                let a = w.addr(*p);
+            Ev::HDialPeer(p, _, fl) => {
+                for t in 0..NTR {
+                    w.set_failures(t, fl.contains(&t), false, false, false);
+                }
+                let r = w.handle.dial(&w.peers[*p]);
+                ret = hret_code(&r) + 1;
+            }
+            Ev::DialAddr(p, t, f) => {
+                w.set_failures(*t, false, *f, false, false);
+                let a = w.addr(*p, *t);
                 let r = rt.block_on(w.manager.dial_address(a));
                 ret = ret_code(&r) + 1;
             }
-            Ev::AddAddr(p) => {
-                let a = w.addr(*p);
-                w.manager.add_known_address(w.peers[*p], std::iter::once(a));
+            Ev::AddAddr(p, t) => {
+                let a = w.addr(*p, *t);
+                let peer = w.peers[*p];
+                w.handle.add_known_address(&peer, std::iter::once(a));
             }
-            Ev::TrDialFailure(c, p) => w.script.inject_dial_failure(*c as usize, w.addr(*p)),
-            Ev::TrOpened(c, f) => {
-                w.script.set_failures(false, false, *f, false);
-                // the address of the peer the connection was opened for is not known to the script;
-                // any address is accepted by the manager (it only warns): use the pending peer if any
+            Ev::TrDialFailure(c, t, p) => {
+                if let Some(s) = &w.scripts[*t] {
+                    s.inject_dial_failure(*c as usize, w.addr(*p, *t));
+                }
+            }
+            Ev::TrOpened(c, t, f) => {
+                w.set_failures(*t, false, false, *f, false);
+                // the address the transport reports: the canonical address (for this transport) of
+                // the peer the connection id was dialled for
                 let p = w
                     .manager
                     .verif_pending_connections()
@@ -220,43 +373,74 @@ fn apply(rt: &Runtime, w: &mut World, ev: &Ev, out: &mut Vec<u64>) -> StepObs {
                     .find(|(x, _)| *x as u64 == *c)
                     .map(|(_, p)| w.peer_index(p) as usize)
                     .unwrap_or(1);
-                w.script.inject_connection_opened(*c as usize, w.addr(p.min(NPEERS - 1)));
+                if let Some(s) = &w.scripts[*t] {
+                    s.inject_connection_opened(*c as usize, w.addr(p.min(NPEERS - 1), *t));
+                }
             }
-            Ev::TrOpenFailure(c, p) => w.script.inject_open_failure(*c as usize, vec![w.addr(*p)]),
-            Ev::TrEstablished(p, c, l, f) => {
-                w.script.set_failures(false, false, false, *f);
-                w.script.inject_connection_established(w.peers[*p], *c as usize, w.addr(*p), *l);
+            Ev::TrOpenFailure(c, t, p) => {
+                if let Some(s) = &w.scripts[*t] {
+                    s.inject_open_failure(*c as usize, vec![w.addr(*p, *t)]);
+                }
             }
-            Ev::TrPendingInbound(c) => w.script.inject_pending_inbound(*c as usize),
+            Ev::TrEstablished(p, c, t, l, f) => {
+                w.set_failures(*t, false, false, false, *f);
+                if let Some(s) = &w.scripts[*t] {
+                    s.inject_connection_established(w.peers[*p], *c as usize, w.addr(*p, *t), *l);
+                }
+            }
+            Ev::TrPendingInbound(c, t) => {
+                if let Some(s) = &w.scripts[*t] {
+                    s.inject_pending_inbound(*c as usize);
+                }
+            }
             Ev::AcceptDone(c, ok) => {
-                w.script.resolve_accept(*c as usize, *ok);
+                // the oldest accept future for this id (ids are unique on feasible histories; with the
+                // noise stream two transports may hold a future for the same id)
+                if let Some(i) = w.accept_order.iter().position(|(x, _)| x == c) {
+                    let (_, t) = w.accept_order.remove(i);
+                    if let Some(s) = &w.scripts[t] {
+                        s.resolve_accept(*c as usize, *ok);
+                    }
+                }
             }
             Ev::Closed(p, c) => w.manager.verif_report_closed(w.peers[*p], *c as usize),
             Ev::AllocConn => ret = 101 + w.manager.verif_alloc_connection_id() as u64,
             Ev::DialShape(a) => {
-                let mut m = Multiaddr::empty();
-                for c in a {
-                    match crate::c10::protocol_of_peers(&w.peers, *c) {
-                        Some(p) => m = m.with(p),
-                        None => return,
-                    }
-                }
+                let Some(m) = multiaddr_of(w, a) else { return };
                 let r = rt.block_on(w.manager.dial_address(m));
                 ret = ret_code(&r) + 1;
+            }
+            Ev::HDialAddr(a) => {
+                let Some(m) = multiaddr_of(w, a) else { return };
+                let r = w.handle.dial_address(m);
+                ret = hret_code(&r) + 1;
             }
         }
         mevs = w.manager.verif_drain();
     }));
     drop(guard);
-    w.script.set_failures(false, false, false, false);
+    w.clear_failures();
     if res.is_err() {
         stuck = 1;
     }
-    // channel 1: transport calls
-    let calls = w.script.take_calls();
+    // channel 1: transport calls, per transport in the order that transport saw them
+    let mut calls: Vec<(VerifCall, usize)> = Vec::new();
+    for t in 0..NTR {
+        if let Some(s) = &w.scripts[t] {
+            calls.extend(s.take_calls().into_iter().map(|c| (c, t)));
+            let _ = s.take_opened();
+        }
+    }
+    if let Ev::TrEstablished(_, _, _, _, false) = ev {
+        for (c, t) in &calls {
+            if let VerifCall::Accept(id) = c {
+                w.accept_order.push((*id as u64, *t));
+            }
+        }
+    }
     out.push(calls.len() as u64);
-    for c in &calls {
-        let (t, id) = match c {
+    for (c, t) in &calls {
+        let (k, id) = match c {
             VerifCall::Open(c, _) => (1, *c),
             VerifCall::Dial(c) => (2, *c),
             VerifCall::Negotiate(c) => (3, *c),
@@ -266,7 +450,27 @@ fn apply(rt: &Runtime, w: &mut World, ev: &Ev, out: &mut Vec<u64>) -> StepObs {
             VerifCall::AcceptPending(c) => (7, *c),
             VerifCall::RejectPending(c) => (8, *c),
         };
-        out.extend([t, id as u64]);
+        out.extend([k, id as u64, *t as u64]);
+    }
+    // the implementation's choice of transports for a dial(peer) that created an Opening state
+    if let (Some(p), Some(before)) = (dial_peer, before) {
+        let after = w.manager.verif_peer_state(&w.peers[p]);
+        if after[0] == 3 && !(before[0] == 3 && before[1] == after[1]) {
+            let set: Vec<usize> = (0..NTR).filter(|t| after[2] & (1 << t) != 0).collect();
+            let fl: Vec<usize> = match ev {
+                Ev::DialPeer(_, _, fl) | Ev::HDialPeer(_, _, fl) => fl.clone(),
+                _ => Vec::new(),
+            };
+            let opened = |t: usize| calls.iter().any(|(c, u)| *u == t && matches!(c, VerifCall::Open(_, _)));
+            // open() succeeded, then the one that failed (it ended the loop), then the ones never reached
+            let mut order: Vec<usize> = set.iter().copied().filter(|t| opened(*t) && !fl.contains(t)).collect();
+            order.extend(set.iter().copied().filter(|t| opened(*t) && fl.contains(t)));
+            order.extend(set.iter().copied().filter(|t| !opened(*t)));
+            match ev {
+                Ev::DialPeer(_, ts, _) | Ev::HDialPeer(_, ts, _) => *ts = order,
+                _ => {}
+            }
+        }
     }
     // channel 2: what the registered protocol was told
     let mut protos = Vec::new();
@@ -289,7 +493,7 @@ fn apply(rt: &Runtime, w: &mut World, ev: &Ev, out: &mut Vec<u64>) -> StepObs {
             VerifManagerEvent::ConnectionEstablished(p, c, _) => out.extend([1, w.peer_index(p), *c as u64]),
             VerifManagerEvent::ConnectionClosed(p, c) => out.extend([2, w.peer_index(p), *c as u64]),
             VerifManagerEvent::DialFailure(c, a) => out.extend([3, *c as u64, w.peer_of_addr(a)]),
-            VerifManagerEvent::OpenFailure(c, _) => out.extend([4, *c as u64, 0]),
+            VerifManagerEvent::OpenFailure(c, n) => out.extend([4, *c as u64, *n as u64]),
             VerifManagerEvent::Other => out.extend([9, 0, 0]),
         }
     }
@@ -302,8 +506,14 @@ fn apply(rt: &Runtime, w: &mut World, ev: &Ev, out: &mut Vec<u64>) -> StepObs {
         if s[0] != 0 && s[0] != 9 {
             states.push([i as u64, s[0] as u64, s[1] as u64, s[2] as u64]);
         }
-        if w.manager.verif_has_addresses(p) {
-            known.push(i as u64);
+        // the address book: stored addresses by the transport dial(peer) routes them to
+        let addrs = w.manager.verif_peer_addresses(p).unwrap_or_default();
+        if !addrs.is_empty() {
+            let nws = addrs
+                .iter()
+                .filter(|(a, _)| a.iter().any(|c| matches!(c, Protocol::Ws(_) | Protocol::Wss(_))))
+                .count();
+            known.push([i as u64, (addrs.len() - nws) as u64, nws as u64]);
         }
     }
     out.push(states.len() as u64);
@@ -311,7 +521,9 @@ fn apply(rt: &Runtime, w: &mut World, ev: &Ev, out: &mut Vec<u64>) -> StepObs {
         out.extend(s);
     }
     out.push(known.len() as u64);
-    out.extend(known);
+    for k in known {
+        out.extend(k);
+    }
     let mut pend: Vec<[u64; 2]> =
         w.manager.verif_pending_connections().iter().map(|(c, p)| [*c as u64, w.peer_index(p)]).collect();
     pend.sort();
@@ -326,14 +538,22 @@ fn apply(rt: &Runtime, w: &mut World, ev: &Ev, out: &mut Vec<u64>) -> StepObs {
     out.extend(i.iter().map(|x| *x as u64));
     out.push(o.len() as u64);
     out.extend(o.iter().map(|x| *x as u64));
+    let oe = w.manager.verif_opening_errors();
+    out.push(oe.len() as u64);
+    for (c, n) in oe {
+        out.extend([c as u64, n as u64]);
+    }
     StepObs { calls, stuck: stuck != 0, ret }
 }
 
-/// Mirror of the transport contract, kept by the generator to produce feasible histories.
+/// Mirror of the transport contract, kept by the generator to produce feasible histories:
+/// obligations are per (connection id, transport) in the open phase.
 #[derive(Default)]
 struct Contract {
-    owed_open: Vec<(u64, usize)>,
-    owed_neg: Vec<(u64, usize)>,
+    /// (conn, transport, peer): open(conn) called on transport, not answered, not cancelled
+    owed_open: Vec<(u64, usize, usize)>,
+    /// (conn, peer, transport that negotiates)
+    owed_neg: Vec<(u64, usize, usize)>,
     owed_acc: Vec<(u64, usize, bool)>,
     live: Vec<(u64, usize)>,
     /// ids drawn from the shared counter for inbound sockets, unused so far
@@ -345,14 +565,16 @@ struct Contract {
 impl Contract {
     fn observe(&mut self, ev: &Ev, obs: &StepObs) {
         let fails = match ev {
-            Ev::DialPeer(_, f) | Ev::DialAddr(_, f) | Ev::TrOpened(_, f) => *f,
-            Ev::TrEstablished(_, _, _, f) => *f,
+            Ev::DialPeer(_, _, fl) | Ev::HDialPeer(_, _, fl) => !fl.is_empty(),
+            Ev::DialAddr(_, _, f) | Ev::TrOpened(_, _, f) => *f,
+            Ev::TrEstablished(_, _, _, _, f) => *f,
             _ => false,
         };
         match ev {
-            Ev::TrOpened(c, _) | Ev::TrOpenFailure(c, _) => self.owed_open.retain(|(x, _)| x != c),
-            Ev::TrDialFailure(c, _) => self.owed_neg.retain(|(x, _)| x != c),
-            Ev::TrEstablished(_, c, false, _) => self.owed_neg.retain(|(x, _)| x != c),
+            Ev::TrOpened(c, t, _) | Ev::TrOpenFailure(c, t, _) =>
+                self.owed_open.retain(|(x, u, _)| !(x == c && u == t)),
+            Ev::TrDialFailure(c, _, _) => self.owed_neg.retain(|(x, _, _)| x != c),
+            Ev::TrEstablished(_, c, _, false, _) => self.owed_neg.retain(|(x, _, _)| x != c),
             Ev::AcceptDone(c, ok) => {
                 if let Some(i) = self.owed_acc.iter().position(|(x, _, _)| x == c) {
                     let (c, p, _) = self.owed_acc.remove(i);
@@ -363,45 +585,46 @@ impl Contract {
             }
             Ev::Closed(_, c) => self.live.retain(|(x, _)| x != c),
             Ev::AllocConn => self.allocated.push(obs.ret - 101),
-            Ev::TrEstablished(_, c, true, _) => self.allocated.retain(|x| x != c),
-            Ev::TrPendingInbound(c) => self.allocated.retain(|x| x != c),
+            Ev::TrEstablished(_, c, _, true, _) => self.allocated.retain(|x| x != c),
+            Ev::TrPendingInbound(c, _) => self.allocated.retain(|x| x != c),
             _ => {}
         }
         let peer_of = |ev: &Ev, me: &Contract, c: u64| -> usize {
             match ev {
-                Ev::DialPeer(p, _) | Ev::DialAddr(p, _) => *p,
-                Ev::DialShape(a) => a.last().map(|c| c.1 as usize).unwrap_or(1),
-                Ev::TrEstablished(p, _, _, _) => *p,
+                Ev::DialPeer(p, _, _) | Ev::HDialPeer(p, _, _) | Ev::DialAddr(p, _, _) => *p,
+                Ev::DialShape(a) | Ev::HDialAddr(a) => a.last().map(|c| c.1 as usize).unwrap_or(1),
+                Ev::TrEstablished(p, _, _, _, _) => *p,
                 _ => me
                     .owed_open
                     .iter()
-                    .chain(me.owed_neg.iter())
+                    .map(|(x, _, p)| (*x, *p))
+                    .chain(me.owed_neg.iter().map(|(x, p, _)| (*x, *p)))
                     .find(|(x, _)| *x == c)
-                    .map(|(_, p)| *p)
+                    .map(|(_, p)| p)
                     .unwrap_or(1),
             }
         };
-        for call in &obs.calls {
+        for (call, t) in &obs.calls {
             match call {
-                VerifCall::Cancel(c) => self.owed_open.retain(|(x, _)| *x != *c as u64),
+                VerifCall::Cancel(c) => self.owed_open.retain(|(x, u, _)| !(*x == *c as u64 && u == t)),
                 VerifCall::Open(c, _) if !fails => {
                     let p = peer_of(ev, self, *c as u64);
-                    self.owed_open.push((*c as u64, p))
+                    self.owed_open.push((*c as u64, *t, p))
                 }
                 VerifCall::Dial(c) if !fails => {
                     let p = peer_of(ev, self, *c as u64);
-                    self.owed_neg.push((*c as u64, p))
+                    self.owed_neg.push((*c as u64, p, *t))
                 }
                 VerifCall::Negotiate(c) if !fails => {
                     // the opened connection keeps its peer
                     let p = match ev {
-                        Ev::TrOpened(_, _) => self.last_open_peer,
+                        Ev::TrOpened(_, _, _) => self.last_open_peer,
                         _ => 1,
                     };
-                    self.owed_neg.push((*c as u64, p))
+                    self.owed_neg.push((*c as u64, p, *t))
                 }
                 VerifCall::Accept(c) if !fails => {
-                    if let Ev::TrEstablished(p, _, l, _) = ev {
+                    if let Ev::TrEstablished(p, _, _, l, _) = ev {
                         self.owed_acc.push((*c as u64, *p, *l));
                     }
                 }
@@ -435,9 +658,9 @@ fn gen_shape(rng: &mut Rng) -> Vec<(u64, u64)> {
     let p2p = |rng: &mut Rng| -> (u64, u64) { (10, rng.below(NPEERS as u64)) };
     let tcp = |rng: &mut Rng| -> (u64, u64) { (5, rng.pick(&[7000u64, 30333, 1, 65535])) };
     let other = |rng: &mut Rng| -> (u64, u64) { (11, rng.below(8)) };
-    match rng.below(16) {
+    match rng.below(18) {
         0..=3 => vec![host(rng), tcp(rng), p2p(rng)],
-        4 => vec![host(rng), tcp(rng), (7 + rng.below(2), 0), p2p(rng)],
+        4 | 16 => vec![host(rng), tcp(rng), (7 + rng.below(2), 0), p2p(rng)],
         5 => vec![host(rng), tcp(rng)],
         6 => vec![host(rng), tcp(rng), p2p(rng), p2p(rng)],
         7 => vec![host(rng), tcp(rng), p2p(rng), other(rng), p2p(rng)],
@@ -448,6 +671,8 @@ fn gen_shape(rng: &mut Rng) -> Vec<(u64, u64)> {
         12 => vec![host(rng), (6, 30333), (9, 0), p2p(rng)],
         13 => vec![host(rng), p2p(rng)],
         14 => vec![(0, 2 * 65536 + 1), (5, 7000), (10, 0)],
+        // the canonical address of a peer (the one the scripted transports report): stored once
+        17 => canon_comps(rng.range(1, NPEERS as u64 - 1) as usize, rng.below(2) as usize),
         _ => {
             let n = rng.range(0, 5);
             let mut v = Vec::new();
@@ -465,10 +690,19 @@ fn gen_shape(rng: &mut Rng) -> Vec<(u64, u64)> {
     }
 }
 
-fn gen_event(rng: &mut Rng, k: &Contract, noisy: bool, settle: bool, acc_fail: bool) -> Option<Ev> {
+struct GenCfg {
+    noisy: bool,
+    settle: bool,
+    acc_fail: bool,
+    /// installed transports (bitmask)
+    inst: u64,
+    shapes_left: bool,
+}
+
+fn gen_event(rng: &mut Rng, k: &Contract, g: &GenCfg) -> Option<Ev> {
     // accept failures (a protocol cannot be told about the connection) are part of C06's quantifier:
     // in the limits-focused stream they are ordinary events, not noise
-    let af = |rng: &mut Rng, pct: u64| -> bool { acc_fail && rng.chance(pct) };
+    let af = |rng: &mut Rng, pct: u64| -> bool { g.acc_fail && rng.chance(pct) };
     let rp = |rng: &mut Rng| -> usize {
         if rng.chance(4) {
             0
@@ -476,58 +710,82 @@ fn gen_event(rng: &mut Rng, k: &Contract, noisy: bool, settle: bool, acc_fail: b
             rng.range(1, NPEERS as u64 - 1) as usize
         }
     };
-    if noisy && rng.chance(18) {
+    // an installed transport (events can only come from those); any transport for API calls
+    let inst: Vec<usize> = (0..NTR).filter(|t| g.inst & (1 << t) != 0).collect();
+    let it = |rng: &mut Rng| -> usize { inst[rng.below(inst.len() as u64) as usize] };
+    let any_t = |rng: &mut Rng| -> usize { rng.below(NTR as u64) as usize };
+    if g.noisy && rng.chance(18) {
         // infeasible noise: arbitrary ids, failing calls, failing accepts
         let c = rng.below(12);
-        return Some(match rng.below(9) {
-            0 => Ev::DialPeer(rp(rng), true),
-            1 => Ev::DialAddr(rp(rng), true),
-            2 => Ev::TrDialFailure(c, rp(rng)),
-            3 => Ev::TrOpened(c, rng.chance(50)),
-            4 => Ev::TrOpenFailure(c, rp(rng).max(1)),
-            5 => Ev::TrEstablished(rp(rng).max(1), c, rng.chance(50), rng.chance(40)),
+        let fl = |rng: &mut Rng| -> Vec<usize> {
+            match rng.below(4) {
+                0 => vec![0],
+                1 => vec![1],
+                _ => vec![0, 1],
+            }
+        };
+        return Some(match rng.below(10) {
+            0 => Ev::DialPeer(rp(rng), vec![], fl(rng)),
+            1 => Ev::DialAddr(rp(rng), any_t(rng), true),
+            2 => Ev::TrDialFailure(c, it(rng), rp(rng)),
+            3 => Ev::TrOpened(c, it(rng), rng.chance(50)),
+            4 => Ev::TrOpenFailure(c, it(rng), rp(rng).max(1)),
+            5 => Ev::TrEstablished(rp(rng).max(1), c, it(rng), rng.chance(50), rng.chance(40)),
             6 => Ev::AcceptDone(c, false),
             7 => Ev::Closed(rp(rng), c),
-            _ => Ev::TrPendingInbound(c),
+            8 => Ev::HDialPeer(rp(rng), vec![], fl(rng)),
+            _ => Ev::TrPendingInbound(c, it(rng)),
         });
     }
-    if !settle && rng.chance(9) {
-        return Some(Ev::DialShape(gen_shape(rng)));
+    if !g.settle && g.shapes_left && rng.chance(9) {
+        let s = gen_shape(rng);
+        return Some(if rng.chance(12) { Ev::HDialAddr(s) } else { Ev::DialShape(s) });
     }
     for _ in 0..20 {
-        let roll = if settle { 28 + rng.below(60) } else { rng.below(100) };
+        let roll = if g.settle { 28 + rng.below(60) } else { rng.below(100) };
         let ev = match roll {
-            0..=15 => Some(Ev::DialPeer(rp(rng), false)),
-            16..=22 => Some(Ev::DialAddr(rp(rng).max(1), false)),
-            23..=27 => Some(Ev::AddAddr(rp(rng).max(1))),
-            28..=41 => pick(rng, &k.owed_open).map(|(c, p)| {
-                if rng.chance(70) {
-                    Ev::TrOpened(c, false)
+            0..=15 => {
+                let p = rp(rng);
+                Some(if rng.chance(22) { Ev::HDialPeer(p, vec![], vec![]) } else { Ev::DialPeer(p, vec![], vec![]) })
+            }
+            16..=20 => Some(Ev::DialAddr(rp(rng).max(1), any_t(rng), false)),
+            21..=27 => Some(Ev::AddAddr(rp(rng).max(1), any_t(rng))),
+            28..=41 => pick(rng, &k.owed_open).map(|(c, t, p)| {
+                if rng.chance(55) {
+                    Ev::TrOpened(c, t, false)
                 } else {
-                    Ev::TrOpenFailure(c, p)
+                    Ev::TrOpenFailure(c, t, p)
                 }
             }),
-            42..=58 => pick(rng, &k.owed_neg).map(|(c, p)| {
+            42..=58 => pick(rng, &k.owed_neg).map(|(c, p, t)| {
                 if rng.chance(65) {
-                    Ev::TrEstablished(p, c, false, af(rng, 7))
+                    Ev::TrEstablished(p, c, t, false, af(rng, 7))
                 } else {
-                    Ev::TrDialFailure(c, p)
+                    Ev::TrDialFailure(c, t, p)
                 }
             }),
             59..=75 => pick(rng, &k.owed_acc).map(|(c, _, _)| Ev::AcceptDone(c, !af(rng, 20))),
             76..=87 => {
-                if settle {
+                if g.settle {
                     None
                 } else if k.allocated.is_empty() || rng.chance(30) {
                     Some(Ev::AllocConn)
                 } else if rng.chance(80) {
-                    pick(rng, &k.allocated).map(|c| Ev::TrEstablished(rp(rng).max(1), c, true, af(rng, 7)))
+                    // an inbound connection; often from a peer that is being opened (it supersedes the
+                    // attempt on every transport of the set)
+                    let p = match pick(rng, &k.owed_open) {
+                        Some((_, _, p)) if rng.chance(45) => p.max(1),
+                        _ => rp(rng).max(1),
+                    };
+                    let t = it(rng);
+                    pick(rng, &k.allocated).map(|c| Ev::TrEstablished(p, c, t, true, af(rng, 7)))
                 } else {
-                    pick(rng, &k.allocated).map(Ev::TrPendingInbound)
+                    let t = it(rng);
+                    pick(rng, &k.allocated).map(|c| Ev::TrPendingInbound(c, t))
                 }
             }
             _ => {
-                if settle {
+                if g.settle {
                     None
                 } else {
                     pick(rng, &k.live).map(|(c, p)| Ev::Closed(p, c))
@@ -541,6 +799,112 @@ fn gen_event(rng: &mut Rng, k: &Contract, noisy: bool, settle: bool, acc_fail: b
     None
 }
 
+/// Scripted openings of the limits-focused stream ("crowd" shapes): a peer is given two connections,
+/// then a further connection for the same peer finishes negotiating while the global count is still
+/// below the limit (refused by the per-peer rule, not by the limit), then other peers arrive until
+/// the limit should be reached. A slot reserved for the refused connection would show up as a
+/// counted id without an established connection, and as a refusal below the limit.
+#[derive(Clone, Copy)]
+enum Intent {
+    /// a transport draws an id for an inbound socket
+    Alloc,
+    /// the most recently drawn id is established as an inbound connection of this peer
+    EstIn(usize),
+    /// ... or announced as a pending inbound connection
+    PendIn,
+    /// every pending accept future resolves
+    AcceptAll,
+    /// add an address of the peer and dial it by address
+    AddAddr(usize),
+    DialAddr(usize),
+    /// the dial owed for this peer is established
+    EstOut(usize),
+}
+
+fn crowd_script(rng: &mut Rng) -> Vec<Intent> {
+    use Intent::*;
+    let a = 1usize;
+    let mut v = Vec::new();
+    let inbound = |v: &mut Vec<Intent>, p: usize| {
+        v.push(Alloc);
+        v.push(EstIn(p));
+        v.push(AcceptAll);
+    };
+    let outbound = |v: &mut Vec<Intent>, p: usize| {
+        v.push(AddAddr(p));
+        v.push(DialAddr(p));
+        v.push(EstOut(p));
+        v.push(AcceptAll);
+    };
+    match rng.below(4) {
+        0 => {
+            // two inbound connections, a third inbound one
+            inbound(&mut v, a);
+            inbound(&mut v, a);
+            inbound(&mut v, a);
+        }
+        1 => {
+            // outbound primary, inbound secondary, a third inbound one
+            outbound(&mut v, a);
+            inbound(&mut v, a);
+            inbound(&mut v, a);
+        }
+        2 => {
+            // a dial in flight, an inbound connection, a second inbound one (refused: the free slot is
+            // reserved for the dial), then the dial is established as the secondary connection
+            v.push(AddAddr(a));
+            v.push(DialAddr(a));
+            inbound(&mut v, a);
+            inbound(&mut v, a);
+            v.push(EstOut(a));
+            v.push(AcceptAll);
+        }
+        _ => {
+            // inbound primary, outbound secondary, a third inbound one, and one more
+            inbound(&mut v, a);
+            v.push(Alloc);
+            v.push(EstIn(a));
+            v.push(AcceptAll);
+            inbound(&mut v, a);
+            inbound(&mut v, a);
+        }
+    }
+    // other peers until the limits should be reached (and beyond): inbound, pending-inbound, outbound
+    for p in [2usize, 3, 4, 2, 3] {
+        match rng.below(4) {
+            0 => outbound(&mut v, p),
+            1 => {
+                v.push(Alloc);
+                v.push(PendIn);
+                v.push(EstIn(p));
+                v.push(AcceptAll);
+            }
+            _ => inbound(&mut v, p),
+        }
+    }
+    v
+}
+
+fn realize(i: Intent, k: &Contract, rng: &mut Rng, inst: u64) -> Vec<Ev> {
+    let ts: Vec<usize> = (0..NTR).filter(|t| inst & (1 << t) != 0).collect();
+    let t = ts[rng.below(ts.len() as u64) as usize];
+    match i {
+        Intent::Alloc => vec![Ev::AllocConn],
+        Intent::EstIn(p) => k.allocated.last().map(|c| Ev::TrEstablished(p, *c, t, true, false)).into_iter().collect(),
+        Intent::PendIn => k.allocated.last().map(|c| Ev::TrPendingInbound(*c, t)).into_iter().collect(),
+        Intent::AcceptAll => k.owed_acc.iter().map(|(c, _, _)| Ev::AcceptDone(*c, true)).collect(),
+        Intent::AddAddr(p) => vec![Ev::AddAddr(p, t)],
+        Intent::DialAddr(p) => vec![Ev::DialAddr(p, t, false)],
+        Intent::EstOut(p) => k
+            .owed_neg
+            .iter()
+            .find(|(_, q, _)| *q == p)
+            .map(|(c, q, u)| Ev::TrEstablished(*q, *c, *u, false, false))
+            .into_iter()
+            .collect(),
+    }
+}
+
 fn run_generated(rt: &Runtime, rng: &mut Rng, thorough: bool, focus_limits: bool) -> (Vec<u64>, Vec<u64>) {
     let lim = |rng: &mut Rng| -> u64 {
         if focus_limits {
@@ -548,18 +912,32 @@ fn run_generated(rt: &Runtime, rng: &mut Rng, thorough: bool, focus_limits: bool
             // (asymmetric configurations), never both
             rng.pick(&[0u64, 1, 2, 2, 3, 3, 4, 2, 3])
         } else {
-            rng.pick(&[0u64, 0, 0, 1, 2, 3, 4])
+            rng.pick(&[0u64, 0, 0, 1, 2, 2, 3, 4])
         }
     };
-    let (max_in, max_out) = (lim(rng), lim(rng));
+    let (mut max_in, mut max_out) = (lim(rng), lim(rng));
+    // a third of the limits-focused cases open with a crowd shape under limits of 3..5
+    let mut script: std::collections::VecDeque<Intent> = std::collections::VecDeque::new();
+    let mut queued: std::collections::VecDeque<Ev> = std::collections::VecDeque::new();
+    if focus_limits && rng.chance(33) {
+        max_in = rng.pick(&[4u64, 4, 5, 6, 0]);
+        max_out = rng.pick(&[4u64, 4, 5, 6, 0]);
+        if max_in == 0 && max_out == 0 {
+            max_in = 4;
+        }
+        script = crowd_script(rng).into();
+    }
+    // both transports installed in most cases; TCP only / WebSocket only in the others
+    let inst = rng.pick(&[3u64, 3, 3, 3, 3, 3, 3, 1, 1, 2]);
     let noisy = rng.chance(15);
     let n = if thorough { rng.range(10, 120) } else { rng.range(5, 60) };
-    let mut w = World::new(rt, max_in, max_out);
+    let mut w = World::new(rt, max_in, max_out, inst);
     let mut k = Contract::default();
-    let mut case = vec![max_in, max_out, 0];
+    let mut case = vec![max_in, max_out, inst, 0];
     let mut trace = vec![1u64];
     let mut count = 0u64;
     let mut steps = 0;
+    let mut shapes = 0usize;
     let mut phase_settle = false;
     let mut redial: Vec<usize> = Vec::new();
     loop {
@@ -567,17 +945,29 @@ fn run_generated(rt: &Runtime, rng: &mut Rng, thorough: bool, focus_limits: bool
         if steps > 400 {
             break;
         }
-        let ev = if !phase_settle {
+        if queued.is_empty() {
+            if let Some(i) = script.pop_front() {
+                queued = realize(i, &k, rng, inst).into();
+                if queued.is_empty() {
+                    continue;
+                }
+            }
+        }
+        let mut ev = if let Some(e) = queued.pop_front() {
+            e
+        } else if !phase_settle {
             if count >= n {
                 phase_settle = true;
                 continue;
             }
-            match gen_event(rng, &k, noisy, false, focus_limits) {
+            let g = GenCfg { noisy, settle: false, acc_fail: focus_limits, inst, shapes_left: shapes < MAX_SHAPES };
+            match gen_event(rng, &k, &g) {
                 Some(e) => e,
                 None => break,
             }
         } else if !(k.owed_open.is_empty() && k.owed_neg.is_empty() && k.owed_acc.is_empty()) {
-            match gen_event(rng, &k, false, true, focus_limits) {
+            let g = GenCfg { noisy: false, settle: true, acc_fail: focus_limits, inst, shapes_left: false };
+            match gen_event(rng, &k, &g) {
                 Some(e) => e,
                 None => break,
             }
@@ -591,49 +981,66 @@ fn run_generated(rt: &Runtime, rng: &mut Rng, thorough: bool, focus_limits: bool
                 Some(usize::MAX) | None => break,
                 Some(p) => {
                     redial.remove(0);
-                    Ev::DialPeer(p, false)
+                    if rng.chance(25) {
+                        Ev::HDialPeer(p, vec![], vec![])
+                    } else {
+                        Ev::DialPeer(p, vec![], vec![])
+                    }
                 }
             }
         };
-        if let Ev::TrOpened(c, _) = &ev {
-            k.last_open_peer = k.owed_open.iter().find(|(x, _)| x == c).map(|(_, p)| *p).unwrap_or(1);
+        if let Ev::TrOpened(c, _, _) = &ev {
+            k.last_open_peer = k.owed_open.iter().find(|(x, _, _)| x == c).map(|(_, _, p)| *p).unwrap_or(1);
         }
-        ev.encode(&mut case);
+        if matches!(ev, Ev::DialShape(_) | Ev::HDialAddr(_)) {
+            shapes += 1;
+        }
         count += 1;
-        let obs = apply(rt, &mut w, &ev, &mut trace);
+        let obs = apply(rt, &mut w, &mut ev, &mut trace);
+        // the case line carries the implementation's choice of transports (written by `apply`)
+        ev.encode(&mut case);
         k.observe(&ev, &obs);
         if obs.stuck {
             break;
         }
     }
-    case[2] = count;
+    case[3] = count;
     (case, trace)
 }
 
-fn run_stored(rt: &Runtime, c: &[u64]) -> Vec<u64> {
-    if c.len() < 3 {
-        return vec![0];
+/// Runs a stored case; returns the case as emitted (dial(peer) choices rewritten from the run) and the trace.
+fn run_stored(rt: &Runtime, c: &[u64]) -> (Vec<u64>, Vec<u64>) {
+    let bad = || (c.to_vec(), vec![0u64]);
+    if c.len() < 4 || c[2] >= 4 {
+        return bad();
     }
-    let mut w = World::new(rt, c[0], c[1]);
     let mut evs = Vec::new();
-    let mut i = 3;
-    for _ in 0..c[2] {
+    let mut i = 4;
+    for _ in 0..c[3] {
         match Ev::decode(c, &mut i) {
             Some(e) => evs.push(e),
-            None => return vec![0],
+            None => return bad(),
         }
     }
     if i != c.len() {
-        return vec![0];
+        return bad();
     }
+    let shapes = evs.iter().filter(|e| matches!(e, Ev::DialShape(_) | Ev::HDialAddr(_))).count();
+    if shapes > MAX_SHAPES {
+        return bad();
+    }
+    let mut w = World::new(rt, c[0], c[1], c[2]);
+    let mut case = vec![c[0], c[1], c[2], c[3]];
     let mut trace = vec![1u64];
-    for ev in &evs {
-        let obs = apply(rt, &mut w, ev, &mut trace);
-        if obs.stuck {
-            break;
+    let mut stopped = false;
+    for ev in evs.iter_mut() {
+        if !stopped {
+            let obs = apply(rt, &mut w, ev, &mut trace);
+            stopped = obs.stuck;
         }
+        ev.encode(&mut case);
     }
-    trace
+    (case, trace)
 }
 
 pub fn main(args: &Args) {
@@ -651,9 +1058,15 @@ pub fn main(args: &Args) {
     }
     let tcp_stream = tcp::Tcp::new(&rt); // TCP transport stream (cases tagged 9000): c05_tcp.rs
     for c in &stored {
-        let t = catch_unwind(AssertUnwindSafe(|| if tcp::Tcp::is_tcp_case(c) { tcp_stream.run_stored(&rt, c) } else { run_stored(&rt, c) }))
-            .unwrap_or(vec![PANIC_MARK]);
-        out.emit(c, &t);
+        let (c2, t) = catch_unwind(AssertUnwindSafe(|| {
+            if tcp::Tcp::is_tcp_case(c) {
+                (c.clone(), tcp_stream.run_stored(&rt, c))
+            } else {
+                run_stored(&rt, c)
+            }
+        }))
+        .unwrap_or((c.clone(), vec![PANIC_MARK]));
+        out.emit(&c2, &t);
     }
     if args.str("replay").is_some() {
         return;
